@@ -215,12 +215,11 @@ def write_pobs(obsl, fname, name, spec='', origin='', symbol=[], enstag=None, gz
         if not fname.endswith('.gz'):
             fname += '.gz'
 
-        fp = gzip.open(fname, 'wb')
-        fp.write(pobsstring.encode('utf-8'))
+        with gzip.open(fname, 'wb') as fp:
+            fp.write(pobsstring.encode('utf-8'))
     else:
-        fp = open(fname, 'w', encoding='utf-8')
-        fp.write(pobsstring)
-    fp.close()
+        with open(fname, 'w', encoding='utf-8') as fp:
+            fp.write(pobsstring)
 
 
 def _import_data(string):
@@ -911,9 +910,8 @@ def write_dobs(obsl, fname, name, spec='dobs v1.0', origin='', symbol=[], who=No
         if not fname.endswith('.gz'):
             fname += '.gz'
 
-        fp = gzip.open(fname, 'wb')
-        fp.write(dobsstring.encode('utf-8'))
+        with gzip.open(fname, 'wb') as fp:
+            fp.write(dobsstring.encode('utf-8'))
     else:
-        fp = open(fname, 'w', encoding='utf-8')
-        fp.write(dobsstring)
-    fp.close()
+        with open(fname, 'w', encoding='utf-8') as fp:
+            fp.write(dobsstring)
